@@ -170,6 +170,22 @@ def build_sources(tier):
                 pre = 'void main() { }\n' if ek not in ('cpp-undef', 'cpp-error') else ''
                 src = '\n'.join(lines) + '\n' + pre + mk() + tail
                 out.append(('/'.join(n for n, _ in seq) + '/' + ek + '/' + tn, src, 'stdin', len(lines) + (2 if pre else 1), None))
+    # a code-generation error preceded by warnings (earlier diagnostics of the same compilation), in text order and - through a
+    # prototype, which makes the later definition be generated first - in reverse text order
+    for seq in [[c] for c in cons[:12]] + [[cons[4], cons[6]], [cons[9], cons[7]]]:
+        for ek, stmt in (('codegen-index', 'hp[X] = 1;'), ('codegen-mult', 'hi = hi * hj;'), ('codegen-void', 'hi = hv();')):
+            for order in ('fwd', 'proto-back', 'two-back'):
+                lines = ['char hi, hj; char *hp;', 'void hv() { }']
+                if order != 'fwd': lines += ['void hw();'] + (['void hw2();'] if order == 'two-back' else [])
+                if order == 'fwd': lines += ['void hw() {', '  hi = 300;', '}']
+                for nm, ls in seq:
+                    uid += 1; lines += [l.replace('%d', str(uid)) for l in ls]
+                lines += ['void main()', '{', '  hj = 1;'] + (['  hw();'] if True else []) + (['  hw2();'] if order == 'two-back' else [])
+                lines.append('  ' + stmt); errline = len(lines)
+                lines.append('}')
+                if order != 'fwd': lines += ['', 'void hw()', '{', '  hi = 300;', '}']
+                if order == 'two-back': lines += ['void hw2() {', '', '  hj = 1000;', '}']
+                out.append(('/'.join(n for n, _ in seq) + '/after-warning/' + order + '/' + ek, '\n'.join(lines) + '\n', 'stdin', errline, None))
     # errors inside included files
     for seq in [[c] for c in cons[:9]]:
         for hdr, hline in (('h_bad_syntax.h', 2), ('h_bad_cpp.h', 3), ('h_bad_sem.h', 2), ('h_nested_bad.h', None)):
